@@ -22,6 +22,25 @@ def _is_arg(n):
     return lambda e: e == ("arg", n) or (e[0] == "field" and e[1] == ("arg", n))
 
 
+def _collects_range(F, du):
+    """`(0..n).map(f).collect()`: the vector has exactly one element per value of the range (map keeps the
+    length; any other adaptor does not count)."""
+    from .expr import walk
+    for t in q.calls_in(F, "core::iter::traits::iterator::Iterator::collect",
+                        "core::iter::traits::collect::FromIterator::from_iter"):
+        e = expr(F, t.args[0], du)
+        has_range = False
+        ok = True
+        for x in walk(e):
+            if x[0] == "agg" and str(x[1]).endswith("Range"):
+                has_range = True
+            if x[0] == "call" and not (x[1].endswith("::map") or x[1].endswith("::into_iter")):
+                ok = False
+        if has_range and ok:
+            return True
+    return False
+
+
 def sib_queue_len(ctx, prog):
     R = "C19.SIB-queue-len"
     ctx.rule(R, "max_height_allowed() = queues.len() - 1 in both heaps, so every sizing of `queues` "
@@ -91,6 +110,8 @@ def sib_queue_len(ctx, prog):
                     inloop = [t for t in pushes if any(t.bb in body for body in loops.values())]
                     if len(inloop) == 1:
                         ctx.ok(R, "size:RecomputeHeap::new")
+                    elif not inloop and _collects_range(F, du):
+                        ctx.ok(R, "size:RecomputeHeap::new", "range mapped and collected")
                     else:
                         ctx.fail(R, "size:RecomputeHeap::new", "expected exactly one push per iteration", fn=F)
                 else:
